@@ -9,16 +9,19 @@ struct SimNode
   int* ptrs[3];
   unsigned long long big;
 };
-struct GNode // guest (ILP32) image
+#ifndef SIM_PTR_T
+#  define SIM_PTR_T uint32_t
+#endif
+struct GNode // guest image (32-bit long; pointer representation SIM_PTR_T)
 {
   int32_t tag;
-  uint32_t next;
-  uint32_t data;
+  SIM_PTR_T next;
+  SIM_PTR_T data;
   char name[8];
-  uint32_t ptrs[3];
+  SIM_PTR_T ptrs[3];
   uint64_t big;
 };
-static_assert(sizeof(GNode) == 40);
+static_assert(sizeof(GNode) == (sizeof(SIM_PTR_T) == 4 ? 40 : 64));
 
 #if defined(__clang__)
 #  pragma clang diagnostic ignored "-Wgnu-zero-variadic-macro-arguments"
